@@ -364,9 +364,15 @@ def _links_compose(c, ctx, lay):
             if _unwrap_copy(e.val) is not e.val:
                 by_val.setdefault(_vkey(_unwrap_copy(e.val)), []).append(e)
     by_comp = {}
+    via = {}
     for e in c.flat:
         if e.op is not None and hasattr(e.op, 'target') and isinstance(getattr(e.op, 'target', None), ComposerV):
             by_comp.setdefault(e.op.target, []).append(e)
+        for vo in (e.extra.get('via_ops') or []) if getattr(e, 'extra', None) else []:
+            # bytes of another composer written through this composer's compose_raw / compose_bytes
+            if vo is not None and isinstance(getattr(vo, 'target', None), ComposerV):
+                by_comp.setdefault(vo.target, []).append(e)
+                via.setdefault(id(e), []).append(vo)
 
     def positions_of_bytes(bv):
         """Elements produced by a byte value (BytesV)."""
@@ -377,7 +383,7 @@ def _links_compose(c, ctx, lay):
                 comp, n = part[1], part[2]
                 ops = comp.ops[:n]
                 for e in by_comp.get(comp, []):
-                    if e.op in ops:
+                    if e.op in ops or any(vo in ops for vo in via.get(id(e), [])):
                         out.append(e)
             elif tag == 'repeat':
                 for e in c.flat:
